@@ -826,6 +826,31 @@ func (x *Exec) trCall(e *Expr, env *Env) (Term, error) {
 				return tBool(app("uf_re_compiles", args[0].S)), nil
 			}
 			return Term{}, fmt.Errorf("bad arguments to %s", callee.Name)
+		case "pureCall":
+			// pureCall("pkg.Func", args...): the uninterpreted function that models a dependency function listed as pure
+			if len(argsE) < 1 || argsE[0].Op != "str" {
+				return Term{}, fmt.Errorf("pureCall needs the function name as a string literal")
+			}
+			name := argsE[0].Name
+			if !pureExternal(name) {
+				return Term{}, fmt.Errorf("%s is not in the list of pure dependency functions", name)
+			}
+			var sorts, as []string
+			for _, a := range argsE[1:] {
+				t, err := x.tr(a, env)
+				if err != nil {
+					return Term{}, err
+				}
+				sorts = append(sorts, t.Sort)
+				as = append(as, t.S)
+			}
+			rs, ok := pureResultSort[name]
+			if !ok {
+				return Term{}, fmt.Errorf("result sort of %s is not known to specifications", name)
+			}
+			f := fmt.Sprintf("uf_%s_0", mangle(name))
+			x.vc.declFun(f, sorts, rs)
+			return Term{S: app(f, as...), Sort: rs, T: pureResultType(rs)}, nil
 		case "trimSuffix":
 			args, err := trArgs()
 			if err != nil {
@@ -836,6 +861,19 @@ func (x *Exec) trCall(e *Expr, env *Env) (Term, error) {
 			}
 			x.vc.declFun("uf_strings_TrimSuffix_0", []string{SStr, SStr}, SStr)
 			return Term{S: app("uf_strings_TrimSuffix_0", args[0].S, args[1].S), Sort: SStr, T: types.Typ[types.String]}, nil
+		case "member", "with":
+			args, err := trArgs()
+			if err != nil {
+				return Term{}, err
+			}
+			if len(args) != 2 || !strings.HasPrefix(args[0].Sort, "(Array ") || !strings.HasSuffix(args[0].Sort, " Bool)") {
+				return Term{}, fmt.Errorf("%s(set, element) needs a ghost set", callee.Name)
+			}
+			if callee.Name == "member" {
+				env.recordPattern(args[1].S, app("select", args[0].S, args[1].S))
+				return tBool(app("select", args[0].S, args[1].S)), nil
+			}
+			return Term{S: app("store", args[0].S, args[1].S, "true"), Sort: args[0].Sort}, nil
 		case "sameArray":
 			args, err := trArgs()
 			if err != nil {
@@ -1365,4 +1403,17 @@ func buildPatterns(vars []string, terms map[string][]string) [][]string {
 		pats = next
 	}
 	return pats
+}
+
+var pureResultSort = map[string]string{"strings.Trim": SStr, "strings.TrimSpace": SStr, "strings.TrimSuffix": SStr, "strings.TrimPrefix": SStr, "strings.ToLower": SStr,
+	"strings.Contains": SBool, "strings.Index": SInt, "strings.Count": SInt}
+
+func pureResultType(sort string) types.Type {
+	switch sort {
+	case SStr:
+		return types.Typ[types.String]
+	case SBool:
+		return types.Typ[types.Bool]
+	}
+	return types.Typ[types.Int]
 }
